@@ -85,6 +85,20 @@ Definition chebyshevMatrix (d : dir) (ep : bool) (grid : list T) : list (list T)
   let c := cfg_chebMatrix d ep (length g) in
   map (fun x => map (fun n => chebyshev O x n (c_restr c)) (cfg_range c)) g.
 
+(** _cardinalMatrix: np.identity(number of nodes) *)
+Definition identityM (size : nat) : list (list T) :=
+  map (fun i => map (fun j => if (i =? j)%nat then o1 O else o0 O) (seq 0 size)) (seq 0 size).
+Definition cardinalMatrix (d : dir) (ep : bool) (grid : list T) : list (list T) :=
+  identityM (length (trim d ep grid)).
+(** what it stands for: M_ij = C_j(x_i) on the nodes of getCompactCoordinates(ep, d), with
+    the cardinal functions that [evaluate] uses for the same axis kind *)
+Definition cardinalMatrixDef (d : dir) (ep : bool) (grid : list T) (M N : nat)
+  : list (list T) :=
+  map (fun x => evalRow Cardinal d ep grid M N x) (trim d ep grid).
+(** Polynomial.matrix(basis, direction, endpoints) *)
+Definition matrix (b : basis) (d : dir) (ep : bool) (grid : list T) : list (list T) :=
+  match b with Cardinal => cardinalMatrix d ep grid | Chebyshev => chebyshevMatrix d ep grid end.
+
 (** _cardinalDeriv (already transposed: [j, i] = derivWithEndpoints[i, j], rows i kept) *)
 Definition cardinalDeriv (d : dir) (ep : bool) (grid : list T) : list (list T) :=
   map (fun xj => map (fun xi => cd_entry O grid xi xj) (trim d ep grid)) grid.
@@ -306,6 +320,36 @@ Proof.
   - destruct grid as [|a t]; [cbn in L; lia|]. cbn [skipn tl]. rewrite removelast_firstn.
     f_equal. cbn in L. lia.
   - rewrite removelast_firstn. f_equal. lia.
+Qed.
+
+(** ** _cardinalMatrix: the hard-coded identity IS the matrix C_j(x_i) *)
+Lemma map_via_seq {A B} (f : A -> B) (l : list A) (dflt : A) :
+  map f l = map (fun i => f (nth i l dflt)) (seq 0 (length l)).
+Proof.
+  rewrite <- (map_map (fun i => nth i l dflt) f), (map_nth_seq l dflt 0 (length l)) by lia.
+  cbn [skipn]. now rewrite firstn_all.
+Qed.
+
+Theorem cardinalMatrix_is_definition d ep (grid : list R) M N :
+  NoDup grid -> length grid = gsize d M N -> sizes_ok d M N ->
+  cardinalMatrixDef ROps d ep grid M N = cardinalMatrix ROps d ep grid.
+Proof.
+  intros Hnd L HS. unfold cardinalMatrixDef, cardinalMatrix, identityM, evalRow.
+  pose proof (evalCard_nodes d ep grid M N L HS) as E.
+  pose proof (trim_NoDup d ep grid Hnd) as Hs. pose proof (@trim_incl R d ep grid) as Hi.
+  set (sel := trim d ep grid) in *.
+  assert (Erow : forall x, map (fun n => cardinal ROps grid (nth n grid (o0 ROps)) x)
+                               (cfg_range (cfg_evalCard d ep M N))
+                           = map (fun xn => cardinal ROps grid xn x) sel).
+  { intro x. rewrite <- E. now rewrite map_map. }
+  rewrite (map_ext _ _ Erow).
+  rewrite (map_via_seq _ sel 0). apply map_ext_in. intros i Hi'. apply in_seq in Hi'.
+  rewrite (map_via_seq _ sel 0). apply map_ext_in. intros j Hj. apply in_seq in Hj.
+  rewrite cardinal_delta_R by (apply Hi, nth_In; lia).
+  destruct (Req_EM_T (nth j sel 0) (nth i sel 0)) as [K|K].
+  - apply (proj1 (NoDup_nth sel 0) Hs) in K; [|lia|lia]. subst j.
+    now rewrite Nat.eqb_refl.
+  - destruct (Nat.eqb_spec i j) as [->|_]; [contradiction|reflexivity].
 Qed.
 
 (** ** the Chebyshev index ranges of the four methods agree (for the grid sizes that
